@@ -171,7 +171,7 @@ def run(check):
     # with both completion orders of their sources forced: the consumer's logged input must be the reference value
     from . import c15
     for j in range(check.pick(70, 700)):
-        g, trig = c15.build(7 * j + (6 if j % 2 else j % 7), check)
+        g, trig = c15.build(8 * j + (6 if j % 2 else j % 6), check)
         if not any(s_.name == "C" for s_ in g["program"].steps) or g.get("logged_outputs"):
             continue
         inp = ref.normalise_input(g["program"].input_schema, g["input"])
